@@ -567,7 +567,7 @@ def einsum(spec: str, bcast: int, maxlen: int = 3) -> JobOut:
         node = pt.einsum(spec, *[pt.make_placeholder(n, s, F64) for n, s in zip(names, shps)])
         return node, np.einsum(spec, *[data[n] for n in names]), data
 
-    smp = {f"n_{c}": 2 for c in letters} | {f"i{d}": 0 for d in range(len(out))} \
+    smp = {f"n_{c}": min(2, maxlen) for c in letters} | {f"i{d}": 0 for d in range(len(out))} \
         | {f"k{d}": 1 for d in range(len(letters) + 1)}
     return JobOut(obs=[FnOb(f"einsum/{spec}/b{bcast}", params, body, pre, [smp], timeout=300,
                             replay=_generic_numeric(np_build),
@@ -665,20 +665,20 @@ def jobs(tier: str, seed: int):
         add("axis_permutation", ndim=nd, maxlen=L)
     pairs = [(0, 1), (1, 0), (0, 2), (1, 1), (1, 2), (2, 1), (2, 2), (1, 3), (3, 1), (2, 3), (3, 2)]
     if thorough:
-        pairs += [(3, 3), (2, 0), (0, 3), (4, 1), (1, 4), (4, 2), (2, 4)]
+        pairs += [(3, 3), (2, 0), (0, 3), (1, 4), (4, 2), (2, 4)]      # ((4,1) at lengths <= 5 did not finish: outside)
     for o, n in pairs:
         for order in ("C", "F"):
             add("reshape", old_nd=o, new_nd=n, order=order, maxlen=(3 if o + n >= 5 else 4) if not thorough else (4 if o + n >= 6 else 5))
     for o, n in [(2, 1), (1, 2)] + ([(2, 2), (3, 1)] if thorough else []):
         for order in ("c", "f"):          # NumPy (and pytato's validation) accept lower-case spellings
             add("reshape", old_nd=o, new_nd=n, order=order, maxlen=3)
-    for o, n in [(2, 1), (1, 2), (2, 2)] + ([(3, 2), (2, 3)] if thorough else []):
+    for o, n in [(2, 1), (1, 2), (2, 2)]:      # (with -1 inference, 5 axes in total do not finish within budget: outside)
         add("reshape", old_nd=o, new_nd=n, order="C", maxlen=4 if thorough else 3, infer=True)
         add("reshape", old_nd=o, new_nd=n, order="F", maxlen=4 if thorough else 3, infer=True)
     if thorough:
         # (two unbounded slices multiply their path counts: ~10^4 paths already for lengths <= 2)
-        pats = [("i", 5, 4), ("s", 6, 4), ("is", 4, 2), ("si", 4, 2), ("ss", 2, 1), ("se", 4, 3), ("ie", 5, 3), ("sis", 2, 1),
-                ("ii", 5, 1), ("sie", 3, 1), ("see", 3, 2)]
+        pats = [("i", 5, 4), ("s", 6, 4), ("is", 4, 2), ("si", 4, 2), ("se", 4, 3), ("ie", 5, 3),
+                ("ii", 5, 1), ("see", 3, 2)]      # ("ss", "sis", "sie": two unbounded slices / slice+int+ellipsis did not finish: outside)
     else:
         # (axes are processed independently by the code under test: the deep domains are on the
         #  single-axis patterns, multi-axis patterns use small ones -- paths multiply)
@@ -689,13 +689,14 @@ def jobs(tier: str, seed: int):
         for ax in range(-(nd + 1), nd + 1) if thorough else range(nd + 1):
             add("stack", ndim=nd, narr=narr, axis=ax, maxlen=L)
     for nd, narr in [(1, 1), (1, 2), (1, 3), (2, 2), (2, 3)] + ([(3, 2), (3, 3), (2, 4)] if thorough else []):
-        for ax in (range(-nd, nd) if thorough else range(nd)):
+        for ax in range(nd):            # (pytato documents non-negative axes only)
             add("concatenate", ndim=nd, narr=narr, axis=ax, maxlen=L)
     adv = [("A", (1,)), ("A", (3,)), ("A:", (1,)), (":A", (1,)), ("AA", (1, 1)), ("AA", (3, 4)), ("A:A", (1, 1)),
            ("Ai", (1,)), ("iA", (1,)), ("A:i", (1,)), ("sA", (1,)), ("As", (1,)), ("AsA", (1, 2)), (":A:", (3,)),
            ("A", (0,)), ("Ai:", (1,)), (":Ai:", (1,)), ("AAi:", (1, 1)), (":A:A", (1, 1)), (":A:i", (1,)), ("iA:", (1,))]
     if thorough:
-        adv += [("Ais", (3,)), ("AAA", (1, 2, 1)), ("A:A", (3, 5)), ("sAs", (1,)), ("iAs", (3,)), ("Asi", (1,)), ("A::", (1,)),
+        # ("Ais", "sAs", "iAs", "Asi": an unbounded slice next to an int or a second slice did not finish: outside)
+        adv += [("AAA", (1, 2, 1)), ("A:A", (3, 5)), ("A::", (1,)),
                 ("::A", (4,)), ("AA:", (1, 5)), (":AA", (5, 1)), ("i:A", (1,)), ("isA", (1,)), ("AiA", (1, 1))]
     # the whole family of index tuples over {index array, full slice, int}: every pattern of length <= 3 (quick) /
     # <= 4 (thorough) with at least one index array (contiguous and non-contiguous groups, any position of ints)
@@ -739,7 +740,10 @@ def jobs(tier: str, seed: int):
                    "slice step": "+-1..+-3 (quick) / +-4 (thorough), None",
                    "index-array shapes, einsum specs, index patterns": "menus (enumerated)"},
         "outside": ["dtype-specific behaviour (inputs float64/int64 only; width-only casts not modelled)",
-                    "axis lengths above the stated bound", "ndim > 4", "symbolic (SizeParam) shapes -> C16"],
+                    "axis lengths above the stated bound", "ndim > 4", "symbolic (SizeParam) shapes -> C16",
+                    "combinations that did not finish within budget in the end-to-end thorough run (two unbounded slices "
+                    "in one index; an unbounded slice next to an int and an index array; reshape with -1 inference over 5 "
+                    "axes; reshape 4 -> 1 axes at lengths <= 5) -- left out, see the comments in pv/props/c02.py"],
         "assumptions": ["out-of-range data-dependent indices are undefined behaviour as documented; in-range "
                         "negative entries follow the documented mod normalisation"],
     }
